@@ -9,12 +9,45 @@ PID = "C02"
 IMPORTS = "From OV Require Import Model.Vector Model.Matrix Model.MatOps Model.Solve."
 MODEL_VO = ["Model/Solve.vo"]
 RULE = ("square matrices of order 1..8 over Rat/f64/Complex: dense, sparse-patterned, permutation-like (odd and even numbers of exchanges), "
-        "triangular, singular (rank n-1, rank <= n-2, zero rows/columns, all-ones); kinds det, inverse, lu; distinct = distinct executor line; "
-        "non-trivial = order >= 2")
+        "triangular, singular (rank n-1, rank <= n-2, zero rows/columns, all-ones); kinds det, inverse, lu; adversarial family cplx-extreme-scale "
+        "(well-conditioned Complex<f64> matrices with |z| in 1e-200..1e-155 and 1e155..1e200: recorded finding cplx-sqmod-range); "
+        "distinct = distinct executor line; non-trivial = order >= 2")
 TRUSTED = c01.TRUSTED
 ASSUMPTIONS = ["Rust semantics of Vec/usize as modelled", "float accuracy of det/inverse is searched, not proved",
-               "'matrix unchanged' is observed by the executor (snapshot before/after); a value model satisfies it vacuously"]
-UNPROVED = ["rounding accuracy of det/inverse over f64/Complex (covered by tie + search)"]
+               "'matrix unchanged' is observed by the executor (snapshot before/after); a value model satisfies it vacuously",
+               "the theorems assume FieldLaws + PivLaws of the element arithmetic; both are proved for Qc, R, C = R[i] and mathcomp's rat (not for floats, which are no field)"]
+UNPROVED = ["rounding accuracy of det/inverse over f64/Complex (covered by tie + search)",
+            "determinant = \\det is proved for arithmetics built from a mathcomp fieldType (ArithOf F); at the Qc instance used by the exact tier the "
+            "same generic function is covered by lu_spec/determinant_sign_rule (abstract field) and by the Fraction oracle, not by a \\det statement"]
+
+MANIFEST = dict(
+    text=("Theorems (every order n, every entry value, singular input included; Coq, closed under the global context) about the Gallina model "
+          "of src/matrix/solve.rs over any field with a magnitude (FieldLaws + PivLaws, both proved for Qc, R and C=R[i]): lu_decomp_in_place "
+          "always returns and P*M = unit_lower(LU)*upper(LU) with P the identity permuted by `pivots` genuine row transpositions (lu_spec); "
+          "determinant never panics and is (+/-) the product of U's diagonal with the sign given by the parity of the exchanges "
+          "(determinant_sign_rule, determinant_total); for every mathcomp fieldType the code's determinant IS \\det (determinant_is_det), hence "
+          "0 on every singular matrix, sign flip under a row exchange, multiplicativity (determinant_singular_zero/_row_swap/_mul); for every "
+          "nonsingular matrix (one with a left inverse Nf) over any such field -- Qc, R, C included -- inverse returns Nf and it is a two-sided "
+          "inverse, and the determinant is a nonzero value (inverse_nonsingular, determinant_nonsingular); inverse, when it returns, is a right "
+          "inverse (inverse_right), two-sided and unique over a fieldType (inverse_two_sided, inverse_unique); it returns exactly on "
+          "nonsingular input and panics with DivZero exactly on singular input (inverse_complete, inverse_returns_iff_nonsingular, "
+          "inverse_panics_iff_singular, inverse_result); solve_lu is sound and complete (the LU half of C01). The pre-repair determinant is "
+          "refuted on the committed witnesses (Legacy/C02Refuted.v). The same Gallina functions are run against the implementation on every "
+          "check (Rat vs Qc exact; f64/Complex<f64> vs primitive floats, bit-compared) on orders 1..8 of dense, zero-leading, permutation-like, "
+          "triangular and singular (rank n-1, rank <= n-2, zero rows/columns, all-ones) matrices with odd and even numbers of exchanges; an "
+          "independent exact determinant (Fraction elimination, real and complex), the two-sided inverse identity and P*A = L*U itself are "
+          "evaluated on the implementation's answers to search for a failing input; the operand is compared with a clone taken before the call."),
+    note=("Partial: rounding accuracy of det/inverse over f64/Complex<f64> is tied (bitwise against the float model) and searched (1e-10/1e-9 "
+          "scaled tolerances), not proved. 'Matrix left intact' is true by typing in a value model; in Rust it is a run-time observation of the "
+          "executor (snapshot before/after). PivLaws (abs x = 0 <-> x = 0; x <> 0 -> 0 < |x|; not |x| < 0) is an auxiliary hypothesis the code "
+          "genuinely needs (the skip of a zero pivot column is decided by Signed::abs and PartialOrd); it is proved for Qc, R, C and mathcomp's rat. "
+          "Recorded finding (open, key cplx-sqmod-range, decided from the input): over Complex<f64> the modulus and the division square the "
+          "components unscaled, so for entries/pivots with re^2+im^2 outside the normal f64 range inverse/determinant fail on well-conditioned "
+          "input (witnesses corpus/C02/kf_cplx_scale_*.json run on every check and print one KNOWN-FINDING line); the float instance simply does "
+          "not meet PivLaws there."),
+    technique=("Coq 8.16 proof over an abstract field (loop invariants of the in-place LU, substitution loops as written, checked indexing) + "
+               "mathcomp 1.15 bridge for \\det / mulmx1C + model/implementation differential execution (vm_compute vs Rust executor) + exact python oracle"),
+    design="7 (C02), Appendix E (statements gain PivLaws; see Props/C02.v header)")
 
 def singular(rng, n, kind):
     one = Fraction(1)
@@ -40,6 +73,23 @@ def singular(rng, n, kind):
             A[(n-2)*n+j] = A[0*n+j] - A[1*n+j]
     return A
 
+def pivot_ties(A, n):
+    """does the maximum-magnitude pivot rule have a choice at some step (two candidates of equal, nonzero, maximal magnitude)?
+    If not, the factors (LU, P, pivots) are determined by 'partial pivoting by magnitude' and are compared with the model exactly;
+    if so, another valid tie-break gives other factors, and the case is checked by the oracle only (P*A = L*U, parity)."""
+    M = [[Fraction(A[i*n+j]) for j in range(n)] for i in range(n)]
+    for i in range(n):
+        col = [abs(M[k][i]) for k in range(i, n)]
+        mx = max(col)
+        if mx == 0: continue
+        if col.count(mx) > 1: return True
+        p = i + col.index(mx)
+        M[i], M[p] = M[p], M[i]
+        for j in range(i + 1, n):
+            f = M[j][i] / M[i][i]
+            for k in range(i, n): M[j][k] -= f * M[i][k]
+    return False
+
 def mk(elt, kind, n, A, family, nontrivial=True):
     M = (n, n, A)
     ar, fl = ARITH[elt], FLAT[elt]
@@ -50,6 +100,8 @@ def mk(elt, kind, n, A, family, nontrivial=True):
     elif kind == "lu":
         term = ("fl_res (fun r : matrix %s * nat * matrix %s => let '(lu, piv, perm) := r in fl_nat piv ++ @fl_mat %s %s perm ++ @fl_mat %s %s lu) (@lu_decomp %s %s)"
                 % (ar, ar, ar, fl, ar, fl, ar, coq_mat(elt, M)))
+        if pivot_ties(A, n):
+            term = None; family = family + "(pivot-tie: oracle only)"
     return Case(elt, "mat.%s %s" % (kind, tok_mat(elt, M)), term, meta={"kind": kind, "n": n, "A": A}, family=family, nontrivial=nontrivial)
 
 def generate(rng, tier):
@@ -80,6 +132,33 @@ def generate(rng, tier):
                 if elt == 'cplx': A = [complex(x, c01.fval(g) if g.chance(1, 2) else 0.0) for x in A]
                 for kind in ("det", "inverse"):
                     cases.append(mk(elt, kind, n, A, "%s-%s-%s" % (elt, fam, kind), n >= 2))
+    # adversarial: Complex<f64> at magnitudes where re^2 + im^2 leaves the f64 range (recorded finding cplx-sqmod-range);
+    # well-conditioned patterns, so the exact answer is representable and the property's float half applies
+    g = rng.fork("cplx-extreme-scale")
+    for t in range(max(12, N // 2)):
+        n = 1 + (t % 6)
+        k = g.range(-200, -155) if t % 2 == 0 else g.range(155, 200)
+        sc = 10.0 ** k
+        pat = ("diag", "dominant", "dominant-rowperm")[t % 3]
+        A = [complex(0.0, 0.0)] * (n * n)
+        for i in range(n):
+            for j in range(n):
+                if i == j:
+                    A[i*n+j] = complex((n + 2 + g.below(5)) * (1 if g.chance(1, 2) else -1), g.range(-1, 1))
+                elif pat != "diag":
+                    A[i*n+j] = complex(g.range(-1, 1), g.range(-1, 1))
+        if pat == "dominant-rowperm":
+            p = g.shuffle(range(n))
+            A = [A[p[i]*n+j] for i in range(n) for j in range(n)]
+        A = [z * sc for z in A]
+        cases.append(mk('cplx', "inverse", n, A, "cplx-extreme-scale-inverse", n >= 2))
+    for t in range(max(6, N // 4)):          # one tiny column, the rest O(1): the determinant itself is representable
+        n = 2 + (t % 4)
+        tcol = 10.0 ** g.range(-200, -163)
+        A = [complex(g.range(1, 4) * (1 if g.chance(1, 2) else -1), g.range(-2, 2)) for _ in range(n * n)]
+        for i in range(n): A[i*n+i] += complex(n + 3, 0)
+        for i in range(n): A[i*n+0] = A[i*n+0] * tcol
+        cases.append(mk('cplx', "det", n, A, "cplx-extreme-scale-det", True))
     # non-square: rejected
     g = rng.fork("bad")
     for r in range(0, 4):
@@ -98,6 +177,108 @@ def case_from_json(j):
     conv = {'rat': Fraction, 'f64': float, 'cplx': complex}[elt]
     return mk(elt, m["kind"], m["n"], [conv(x) for x in m["A"]], "corpus")
 
+STATS = {"exchanges": {}, "det_zero": 0, "det_nonzero": 0, "inverse_identity_checked": 0, "inverse_singular_skipped": 0,
+         "lu_factorisations_checked": 0, "order": {}}
+
+def cdet_exact(A, n):
+    """exact determinant of a complex matrix with binary-float parts: elimination over (Fraction, Fraction) pairs"""
+    def mul(a, b): return (a[0]*b[0] - a[1]*b[1], a[0]*b[1] + a[1]*b[0])
+    def sub(a, b): return (a[0]-b[0], a[1]-b[1])
+    def div(a, b):
+        d = b[0]*b[0] + b[1]*b[1]
+        return ((a[0]*b[0] + a[1]*b[1]) / d, (a[1]*b[0] - a[0]*b[1]) / d)
+    M = [[(Fraction(A[i*n+j].real), Fraction(A[i*n+j].imag)) for j in range(n)] for i in range(n)]
+    det = (Fraction(1), Fraction(0))
+    for k in range(n):
+        p = next((i for i in range(k, n) if M[i][k] != (0, 0)), None)
+        if p is None: return (Fraction(0), Fraction(0))
+        if p != k:
+            M[p], M[k] = M[k], M[p]; det = (-det[0], -det[1])
+        det = mul(det, M[k][k])
+        for i in range(k + 1, n):
+            f = div(M[i][k], M[k][k])
+            if f != (0, 0):
+                for j in range(k, n): M[i][j] = sub(M[i][j], mul(f, M[k][j]))
+    return det
+
+def det_scale(absA, n):
+    """error scale of a determinant computed by elimination with partial pivoting: the smaller of the products of the row sums and of
+    the column sums of |A| (both bound every term of the Leibniz expansion; pivoting by magnitude commutes with column scaling, so the
+    column form is the natural one; exact, so that it neither under- nor overflows)"""
+    pr = Fraction(1); pc = Fraction(1)
+    for i in range(n): pr *= sum(absA[i*n+j] for j in range(n))
+    for j in range(n): pc *= sum(absA[i*n+j] for i in range(n))
+    return min(pr, pc)
+
+def ffmt(x):
+    try: return "%.6g" % float(x)
+    except OverflowError: return "~1e%d" % (len(str(abs(x.numerator))) - len(str(x.denominator)))
+
+# ---- recorded finding (KNOWN_FINDINGS.txt, key cplx-sqmod-range): Complex<f64> modulus and division square the components unscaled
+MIN_NORMAL = Fraction(2) ** -1022
+MAX_F64 = Fraction(2) ** 1024
+def sqmod_out_of_range(re, im):
+    s = Fraction(re) ** 2 + Fraction(im) ** 2
+    return s != 0 and (s < MIN_NORMAL or s >= MAX_F64)
+
+def cplx_exact_pivots(A, n):
+    """the pivots of exact elimination with partial pivoting by true modulus (what the divisions of inverse/backsolve divide by)"""
+    def mul(a, b): return (a[0]*b[0] - a[1]*b[1], a[0]*b[1] + a[1]*b[0])
+    def sub(a, b): return (a[0]-b[0], a[1]-b[1])
+    def div(a, b):
+        d = b[0]*b[0] + b[1]*b[1]
+        return ((a[0]*b[0] + a[1]*b[1]) / d, (a[1]*b[0] - a[0]*b[1]) / d)
+    M = [[(Fraction(A[i*n+j].real), Fraction(A[i*n+j].imag)) for j in range(n)] for i in range(n)]
+    piv = []
+    for k in range(n):
+        p = max(range(k, n), key=lambda i: M[i][k][0]**2 + M[i][k][1]**2)
+        if M[p][k] == (0, 0): continue
+        M[p], M[k] = M[k], M[p]
+        piv.append(M[k][k])
+        for i in range(k + 1, n):
+            f = div(M[i][k], M[k][k])
+            if f != (0, 0):
+                for j in range(k, n): M[i][j] = sub(M[i][j], mul(f, M[k][j]))
+    return piv
+
+def finding_key(case, desc, items):
+    """cause key of a failure, decided from the INPUT (and the exact pivots it leads to), never from the mere fact of failing:
+    `cplx-sqmod-range` iff the element type is Complex<f64> and some input entry or some exact pivot z has re^2 + im^2 outside the
+    normal f64 range (underflows to 0/subnormal, or overflows)."""
+    m = case.meta
+    if case.elt != 'cplx' or m.get("bad") or "A" not in m: return None
+    A, n = m["A"], m["n"]
+    try:
+        if any(sqmod_out_of_range(z.real, z.imag) for z in A): return "cplx-sqmod-range"
+        if any(sqmod_out_of_range(p[0], p[1]) for p in cplx_exact_pivots(A, n)): return "cplx-sqmod-range"
+    except (OverflowError, ValueError):      # non-finite input entries: not this class
+        return None
+    return None
+
+def lu_oracle(items, n, A):
+    """the statement of lu_spec on the implementation's answer (exact): P is a permutation matrix whose sign is (-1)^pivots and
+    P*A = unit_lower(LU)*upper(LU)"""
+    if items[-1][0] == 'P': return "lu_decomp_in_place panicked (%s) on a square %dx%d matrix" % (items[-1][1], n, n)
+    piv = items[0][1]
+    (r, c, P), pos = parse_items_mat(items, 1, 'rat')
+    (r2, c2, LU), pos = parse_items_mat(items, pos, 'rat')
+    if (r, c, r2, c2) != (n, n, n, n): return "LU/permutation have the wrong shape"
+    sigma = []
+    for i in range(n):
+        row = P[i*n:(i+1)*n]
+        if sorted(row) != [0] * (n - 1) + [1]: return "row %d of the permutation matrix is not a unit vector" % i
+        sigma.append(row.index(1))
+    if sorted(sigma) != list(range(n)): return "the permutation matrix is not a permutation"
+    inv = sum(1 for i in range(n) for j in range(i + 1, n) if sigma[i] > sigma[j])
+    if inv % 2 != piv % 2: return "pivots=%d but the permutation has parity %d" % (piv, inv % 2)
+    L = [(LU[i*n+j] if j < i else (Fraction(1) if i == j else Fraction(0))) for i in range(n) for j in range(n)]
+    U = [(LU[i*n+j] if j >= i else Fraction(0)) for i in range(n) for j in range(n)]
+    PA = [A[sigma[i]*n+j] for i in range(n) for j in range(n)]
+    if matmul(L, U, n, n, n) != PA: return "P*A differs from unit_lower(LU)*upper(LU)"
+    STATS["exchanges"][piv] = STATS["exchanges"].get(piv, 0) + 1
+    STATS["lu_factorisations_checked"] += 1
+    return None
+
 def oracle(case, items):
     m = case.meta; elt = case.elt
     if m.get("bad"):
@@ -105,26 +286,37 @@ def oracle(case, items):
         return None
     n, A, kind = m["n"], m["A"], m["kind"]
     exact = elt != 'cplx'
+    STATS["order"][n] = STATS["order"].get(n, 0) + 1
+    if kind == "lu":
+        return lu_oracle(items, n, A) if elt == 'rat' else None
     d = det_exact([Fraction(x) for x in A], n) if exact else None
     if kind == "det":
         if items[-1][0] == 'P': return "determinant panicked (%s) on a %dx%d matrix (exact determinant %s)" % (items[-1][1], n, n, d)
         v, _ = parse_items_scalar(items, 0, elt)
+        if exact: STATS["det_zero" if d == 0 else "det_nonzero"] += 1
         if elt == 'rat':
             if v != d: return "determinant %s differs from the exact determinant %s" % (v, d)
         elif elt == 'f64':
             if not math.isfinite(v): return "determinant is %r; exact determinant is %s" % (v, d)
-            scale = 1.0
-            for i in range(n): scale *= max(1e-300, sum(abs(float(A[i*n+j])) for j in range(n)))
-            if abs(v - float(d)) > 1e-10 * scale: return "determinant %r differs from exact %r beyond 1e-10*prod(row sums)=%g" % (v, float(d), 1e-10 * scale)
+            scale = det_scale([abs(Fraction(x)) for x in A], n)
+            if abs(Fraction(v) - d) > Fraction(1, 10**10) * scale: return "determinant %r differs from exact %r beyond 1e-10*min(prod row sums, prod column sums)=%g" % (v, float(d), 1e-10 * float(scale))
         else:
             if not isfinite(v): return "complex determinant is not finite"
+            dr, di = cdet_exact(A, n)
+            scale = det_scale([abs(Fraction(x.real)) + abs(Fraction(x.imag)) for x in A], n)
+            er, ei = Fraction(v.real) - dr, Fraction(v.imag) - di
+            if max(abs(er), abs(ei)) > Fraction(1, 10**10) * scale:
+                return "complex determinant %r differs from exact (%s, %s) beyond 1e-10*min(prod row sums, prod column sums)=%s" % (v, ffmt(dr), ffmt(di), ffmt(scale))
         return None
     if kind == "inverse":
-        if exact and d == 0: return None       # singular: outside the quantifier
+        if exact and d == 0:
+            STATS["inverse_singular_skipped"] += 1
+            return None       # singular: outside the quantifier
         if items[-1][0] == 'P':
             return "inverse panicked (%s) on a nonsingular matrix" % items[-1][1] if exact else None
         (r, c, X), _ = parse_items_mat(items, 0, elt)
         if (r, c) != (n, n): return "inverse has shape %dx%d" % (r, c)
+        STATS["inverse_identity_checked"] += 1
         I1 = matmul(A, X, n, n, n); I2 = matmul(X, A, n, n, n)
         for P, nm in ((I1, "A*inv"), (I2, "inv*A")):
             for i in range(n):
@@ -137,3 +329,51 @@ def oracle(case, items):
                         if not isfinite(P[i*n+j]) or abs(e) > tolr: return "%s differs from the identity at (%d,%d) by %g (tol %g)" % (nm, i, j, abs(e), tolr)
         return None
     return None
+
+
+# ---- the forbidden-construct audit over the real dependency closure of Props/C02.v (engine's vfile_deps only sees single-module
+# Require lines; this one follows every `From OV Require [Import|Export] A.B C.D ...` list, multi-line included)
+import re as _re
+def _deps(vfile, seen):
+    if vfile in seen or not os.path.exists(vfile): return seen
+    seen.add(vfile)
+    src = strip_comments(open(vfile).read())
+    for mm in _re.finditer(r"From\s+OV\s+Require\s+(?:Import\s+|Export\s+)?((?:[A-Za-z_][\w']*(?:\.[A-Za-z_][\w']*)*\s*)+)\.", src):
+        for mod in mm.group(1).split():
+            _deps(os.path.join(COQDIR, mod.replace(".", "/") + ".v"), seen)
+    return seen
+
+AUDITED = []
+def extra_checks(exe, rng, tier):
+    ev = []
+    deps = sorted(_deps(os.path.join(COQDIR, "Props", "C02.v"), set()))
+    del AUDITED[:]
+    AUDITED.extend(os.path.relpath(d, COQDIR) for d in deps)
+    need = ["Proofs/LU.v", "Proofs/LUSolve.v", "Proofs/LUInv.v", "Bridge/Det.v", "Legacy/C02Refuted.v", "Model/Solve.v"]
+    missing = [f for f in need if f not in AUDITED]
+    if missing:
+        ev.append(("tie", "dependency audit did not reach %s" % missing, {"audit": "deps", "missing": missing}))
+    outside = _re.compile(r"(?m)^\s*(Variable|Variables|Hypothesis|Hypotheses|Context)\b")
+    for d in deps:
+        src = strip_comments(open(d).read())
+        mm = FORBIDDEN.search(src)
+        if mm:
+            ev.append(("tie", "forbidden construct %r in %s" % (mm.group(0), os.path.relpath(d, COQDIR)), {"audit": "forbidden", "file": d}))
+        depth = 0                       # Variable/Hypothesis only inside a Section
+        for ln in src.splitlines():
+            if _re.match(r"\s*Section\b", ln): depth += 1
+            elif _re.match(r"\s*End\b", ln) and depth > 0: depth -= 1
+            elif depth == 0 and outside.match(ln):
+                ev.append(("tie", "assumption outside a Section in %s: %s" % (os.path.relpath(d, COQDIR), ln.strip()[:80]), {"audit": "section", "file": d}))
+    return ev, {}
+
+def extra_coverage():
+    return {"audited_dependency_files": list(AUDITED),
+            "measured": {"row_exchanges_histogram(lu cases)": {str(k): v for k, v in sorted(STATS["exchanges"].items())},
+                         "odd_exchange_cases": sum(v for k, v in STATS["exchanges"].items() if k % 2 == 1),
+                         "even_exchange_cases": sum(v for k, v in STATS["exchanges"].items() if k % 2 == 0),
+                         "exact_determinants_zero(singular)": STATS["det_zero"], "exact_determinants_nonzero": STATS["det_nonzero"],
+                         "two_sided_inverse_identities_checked": STATS["inverse_identity_checked"],
+                         "inverse_on_singular_input(outside quantifier)": STATS["inverse_singular_skipped"],
+                         "P*A=L*U_checked_on_implementation": STATS["lu_factorisations_checked"],
+                         "cases_by_order": {str(k): v for k, v in sorted(STATS["order"].items())}}}
